@@ -28,6 +28,9 @@ CH["C08"] = dict(level="fault_enumeration", design="3/C08", technique="determini
 CH["C02"] = dict(level="exploration", design="3/C02", technique="deterministic simulation: real reader against a reference spec chunker stub over a sim reader; seeded chunk-level interleaving, header-type choices, rule-breaking injections and read segmentation",
    text="Seeded search over chunk traces a conformant RTMP 1.0 sender can emit (up to 6 chunk streams with ids 2..65599 in 1/2/3-byte form, all legal header-type mixes with deltas and extended timestamps, chunk-level interleaving, Set Chunk Size in between) x read segmentation; oracle: decoded messages equal the chunker's in completion order with 31-bit timestamps, clean EOF. 32% of traces carry one injected rule-breaking chunk (or the librtmp ping form) with the expected verdict: error at the offending chunk, nothing fabricated; ping form accepted. Sampling, not proof.",
    note="Trusted: reference chunker (ref/chunker.go), cross-checked on every conformant trace by the independent reference parser (ref/rtmp.go).")
+CH["C03"] = dict(level="exploration", design="3/C03", technique="deterministic simulation: two real endpoints on a sim transport, seeded packet/transaction sequences and schedules, sequential transaction-map model replayed over the event log",
+   text="Seeded search over WritePacket sequences of every constructible packet with generated fields (AMF0 trees, colliding transaction ids, responses for outstanding/consumed/never-sent ids, typed waits) x segmentation x interleavings of 4 tasks after the real handshake. Invariants at send: MarshalBinary length == Size(), a fresh packet of the type unmarshals and re-marshals identically. At receive: DecodeMessage returns the Go type the dispatch defines (a _result: the response type of the model's outstanding request, exactly once; no request: error), re-marshalling gives the received payload; ExpectPacket/ExpectMessage return the first arriving packet/message of the type. 2% of plans sweep all 65536 user-control event types. Sampling, not proof.",
+   note="Trusted: transaction-map model; AMF0 values are pre-filtered by an own encode/decode round trip and reported under the separate key C03/amf0-tree; createStream/play accepted as generic CallPacket.")
 def main():
     import os
     extra = {}
